@@ -23,6 +23,9 @@ Reset(w) == LET s == State0(w)
             IN /\ world = s.world /\ phase = s.phase /\ err = s.err /\ hasNumbers = s.hasNumbers
                /\ bad = s.bad /\ invalidSeen = s.invalidSeen /\ decls = << >>
 
+Valid(e) == IF e.kind = "market" THEN WellFormedMarket([cand |-> e.cand, named |-> e.named, rule |-> e.rule])
+            ELSE e.valid
+
 TraceInit == l = 1 /\ verdict = Ok /\ obsErr = FALSE /\ obsNum = FALSE /\ Reset("block")
 
 (* the final judgement of one trace *)
@@ -40,14 +43,16 @@ TraceNext ==
        \/ /\ e.ev = "Begin"
           /\ SetS(State0(e.world)) /\ UNCHANGED << decls, verdict, obsErr, obsNum >>
        \/ /\ e.ev = "Declare"
+          \* a configured market is classified by the spec (WellFormedMarket), not by the driver
           /\ SetS(IF phase # "declaring" THEN S
-                  ELSE IF e.valid THEN DeclareValidOp(S) ELSE DeclareInvalidOp(S, e.kind))
+                  ELSE IF Valid(e) THEN DeclareValidOp(S) ELSE DeclareInvalidOp(S, e.kind))
           /\ obsErr' = (obsErr \/ e.raised)
           \* the spec predicts whether this very call raises
           /\ verdict' = Worse(verdict,
                               IF phase # "declaring" THEN D("declaration_after_end")
-                              ELSE IF e.valid /\ e.raised THEN D("valid_rejected")
-                              ELSE IF ~e.valid /\ (e.raised # (e.kind \in Immediate)) THEN D("reject_point")
+                              ELSE IF Valid(e) # e.valid THEN D("driver_classification")
+                              ELSE IF Valid(e) /\ e.raised THEN D("valid_rejected")
+                              ELSE IF ~Valid(e) /\ (e.raised # (e.kind \in Immediate)) THEN D("reject_point")
                               ELSE Ok)
           /\ UNCHANGED << decls, obsNum >>
        \/ /\ e.ev = "Main"
